@@ -659,4 +659,82 @@ Section XProofs.
     - cbn. unfold cache_replace. intros [H|[[H|H]|H]]; auto; try tauto.
       apply In_cache_add in H as [H| ->]; auto. apply In_cache_remove in H as [H _]; tauto.
   Qed.
+
+  (** * "once": an OCSP pass makes at most one attempt per revoked certificate *)
+  Lemma filter_filter_head m n (l : list cert) :
+    filter (fun c => chead c =? m) (filter (fun c => chead c =? n) l) =
+    if n =? m then filter (fun c => chead c =? m) l else [].
+  Proof.
+    induction l as [|c r IH]; cbn; [destruct (n =? m); reflexivity|].
+    destruct (Nat.eqb_spec (chead c) n) as [E|E]; cbn.
+    - destruct (Nat.eqb_spec (chead c) m) as [E'|E']; rewrite IH.
+      + assert (n = m) by congruence. subst. rewrite Nat.eqb_refl. reflexivity.
+      + destruct (Nat.eqb_spec n m); [congruence|reflexivity].
+    - rewrite IH. destruct (Nat.eqb_spec n m) as [->|N]; [|reflexivity].
+      destruct (Nat.eqb_spec (chead c) m); [congruence|reflexivity].
+  Qed.
+
+  Lemma heads_flat_map m (l : list cert) d :
+    NoDup d ->
+    length (filter (fun c => chead c =? m) (flat_map (fun n => filter (fun c => chead c =? n) l) d)) =
+    if mem_nat m d then length (filter (fun c => chead c =? m) l) else 0.
+  Proof.
+    induction 1 as [|n d Hn ND IH]; [reflexivity|].
+    cbn [flat_map]. rewrite filter_app, app_length, IH, filter_filter_head.
+    unfold mem_nat; cbn [existsb]. fold (mem_nat m d). rewrite (Nat.eqb_sym m n).
+    destruct (Nat.eqb_spec n m) as [->|N]; cbn [orb]; [|reflexivity].
+    destruct (mem_nat m d) eqn:M; [apply mem_nat_In in M; contradiction|lia].
+  Qed.
+
+  Lemma heads_in_order m ord (l : list cert) :
+    length (filter (fun c => chead c =? m) (in_order ord l)) = length (filter (fun c => chead c =? m) l).
+  Proof.
+    unfold in_order. rewrite filter_app, app_length, heads_flat_map by apply NoDup_nodup.
+    assert (E : mem_nat m (nodup Nat.eq_dec ord) = mem_nat m ord).
+    { destruct (mem_nat m ord) eqn:M.
+      - apply mem_nat_In, nodup_In, mem_nat_In; auto.
+      - destruct (mem_nat m (nodup Nat.eq_dec ord)) eqn:M'; auto.
+        apply mem_nat_In, nodup_In, mem_nat_In in M'. congruence. }
+    rewrite E.
+    assert (F : filter (fun c => chead c =? m) (filter (fun c => negb (mem_nat (chead c) ord)) l) =
+                if mem_nat m ord then [] else filter (fun c => chead c =? m) l).
+    { induction l as [|c r IH]; cbn; [destruct (mem_nat m ord); reflexivity|].
+      destruct (Nat.eqb_spec (chead c) m) as [Ec|Ec].
+      - rewrite Ec. destruct (mem_nat m ord) eqn:M; cbn.
+        + exact IH.
+        + rewrite Ec, Nat.eqb_refl, IH. reflexivity.
+      - destruct (negb (mem_nat (chead c) ord)); cbn; [destruct (Nat.eqb_spec (chead c) m); [contradiction|]|]; exact IH. }
+    rewrite F. destruct (mem_nat m ord); cbn; lia.
+  Qed.
+
+  Lemma fr_attempts t r m :
+    cnt (issued (force_renew t r)) m + cnt (failed (force_renew t r)) m <=
+    cnt (issued t) m + cnt (failed t) m + (if chead r =? m then 1 else 0).
+  Proof.
+    destruct (fr_cases t r) as (_ & _ & _ & _ & [[E _]|[(_ & _ & E)|[(_ & _ & _ & E)|(_ & _ & _ & E)]]]);
+      cbn zeta in E; rewrite E; cbn; try lia; unfold cnt; cbn;
+      destruct (Nat.eq_dec (chead r) m) as [->|N]; try rewrite Nat.eqb_refl; try lia;
+      destruct (Nat.eqb_spec (chead r) m); try contradiction; lia.
+  Qed.
+
+  Lemma fold_fr_attempts L s m :
+    cnt (issued (fold_fr L s)) m + cnt (failed (fold_fr L s)) m <=
+    cnt (issued s) m + cnt (failed s) m + length (filter (fun c => chead c =? m) L).
+  Proof.
+    revert s; induction L as [|r L IH]; intros s; cbn [fold_left filter]; [cbn; lia|].
+    specialize (IH (force_renew s r)). pose proof (fr_attempts s r m) as A.
+    destruct (chead r =? m); cbn [length]; lia.
+  Qed.
+
+  (** over one OCSP pass the issuer is asked (successfully or not) for a name at most as many
+      times as there are revoked certificates with that first name: each is renewed once *)
+  Theorem ocsp_pass_once_per_revoked x ord m :
+    let s := core x in let s' := core (xstep x (OcspPass ord)) in
+    cnt (issued s') m + cnt (failed s') m <=
+    cnt (issued s) m + cnt (failed s) m + length (filter (fun c => chead c =? m) (revoked_certs x)).
+  Proof.
+    cbn zeta. cbn [xstep ocsp_pass core].
+    pose proof (fold_fr_attempts (in_order ord (revoked_certs x)) (with_err (core x) false) m) as A.
+    rewrite heads_in_order in A. exact A.
+  Qed.
 End XProofs.
